@@ -32,7 +32,13 @@ type fields struct {
 	cert    []byte // x509 arm
 	ikh     [32]byte
 	tbs     []byte // precert arm
-	data    []byte // Blob, LogList
+	data    []byte // Blob, LogList: the bytes handed over
+	// clause ExactBytes: the document the bytes are a form of (plain = the document in its plain form), the form
+	// `data` is written in ("" = plain), the log list's content, and which of the ways to write a form is taken
+	plain   []byte
+	dform   string
+	doc     *llDoc
+	variant int
 	// how the same entry is presented as a certificate chain (ctutil); nil when the entry is synthetic
 	chain []*pki.Node
 	// the certificates of the chain's shape (issuance x extension order), for mutations that need a neighbour chain
@@ -48,6 +54,7 @@ func (f *fields) clone() *fields {
 	g.cert = append([]byte{}, f.cert...)
 	g.tbs = append([]byte{}, f.tbs...)
 	g.data = append([]byte{}, f.data...)
+	g.plain = append([]byte{}, f.plain...)
 	return &g
 }
 
@@ -294,7 +301,9 @@ func precertFields(f *fields, m *shapeMat, pre *pki.Node, tail []*pki.Node) {
 
 // baseline draws a valid object of the kind.  synthetic: the SCT entry is built so that both arms of
 // signed_entry have the same bytes and entry_type is the only thing telling them apart.
-func (w *world) baseline(kind string, synthetic bool) *fields { return w.baselineShape(kind, synthetic, stdShape) }
+func (w *world) baseline(kind string, synthetic bool) *fields {
+	return w.baselineShape(kind, synthetic, stdShape)
+}
 
 // baselineShape: the same with the precertificate chain in the given shape.
 func (w *world) baselineShape(kind string, synthetic bool, sh Shape) *fields {
@@ -305,8 +314,13 @@ func (w *world) baselineShape(kind string, synthetic bool, sh Shape) *fields {
 	case "Blob":
 		f.data = make([]byte, rng.Intn(96))
 		rng.Read(f.data)
+		f.plain, f.variant = append([]byte{}, f.data...), rng.Intn(1<<16)
 	case "LogList":
-		f.data = logListJSON(rng, "alpha")
+		// the plain form: indented, LF line ends, no final newline (the other forms: forms.go)
+		f.doc = &llDoc{v1: rng.Intn(90), v2: rng.Intn(90), name: "alpha"}
+		f.variant = rng.Intn(1 << 16)
+		f.plain = f.doc.text("plain", f.variant)
+		f.data = append([]byte{}, f.plain...)
 	case "SCTx509", "SCTprecert":
 		if rng.Intn(3) > 0 {
 			f.ext = make([]byte, 1+rng.Intn(12))
@@ -336,12 +350,6 @@ func (w *world) baselineShape(kind string, synthetic bool, sh Shape) *fields {
 		}
 	}
 	return f
-}
-
-func logListJSON(rng *mrand.Rand, name string) []byte {
-	return []byte(fmt.Sprintf(`{"version":"%d.%d","log_list_timestamp":"2024-05-01T12:00:00Z","operators":[{"name":"op %s","email":["ct@%s.example"],`+
-		`"logs":[{"description":"log %s","log_id":"AAAA","key":"AAAA","url":"https://%s.example/ct/","mmd":86400}],"tiled_logs":[]}]}`,
-		rng.Intn(90), rng.Intn(90), name, name, name, name))
 }
 
 // mutateField changes exactly one signed field of f to another value of the same field.
@@ -385,7 +393,7 @@ func (w *world) mutateField(f *fields, field string) (*fields, error) {
 		}
 	case "data":
 		if f.kind == "LogList" {
-			g.data = bytes.Replace(f.data, []byte("log alpha"), []byte("log alphb"), 1) // still a well-formed log list
+			g.data = bytes.Replace(f.data, []byte("log alpha"), []byte("log alphb"), 1) // still a well-formed log list, in the same form
 			if bytes.Equal(g.data, f.data) {
 				return nil, fmt.Errorf("log list not changed")
 			}
